@@ -38,11 +38,13 @@ namespace PM
 
         match = parent.content_match_at(0)
         start = match.fill_before(fragment).append(fragment)            # assert … is not None
+        if on_end_spine and open_end > depth:
+            return start          # the last child stays open at the end: no end filler at this level
         fragment = start.append(match.match_fragment(start).fill_before(Fragment.empty, True))
 
     `parentTy` is the type of `parent` (`none` = Python `None`: only at depth 0, where
-    `depth > new_open` is never true). -/
-def closeLevel (S : Schema) (parentTy : Option TypeId) (fragment : List Node) : FM (List Node) :=
+    `depth > new_open` is never true); `skipEnd` = `on_end_spine and open_end > depth`. -/
+def closeLevel (S : Schema) (parentTy : Option TypeId) (skipEnd : Bool) (fragment : List Node) : FM (List Node) :=
   match parentTy with
   | none => throw .raises
   | some pt => do
@@ -50,33 +52,39 @@ def closeLevel (S : Schema) (parentTy : Option TypeId) (fragment : List Node) : 
     let fill ← fillOpt S d 0 (S.types fragment) false
     let fill ← liftRaise fill
     let start := fappend fill fragment
-    let q ← liftRaise (d.run 0 (S.types start))
-    let fill2 ← fillOpt S d q [] true
-    let fill2 ← liftRaise fill2
-    pure (fappend start fill2)
+    if skipEnd then pure start
+    else do
+      let q ← liftRaise (d.run 0 (S.types start))
+      let fill2 ← fillOpt S d q [] true
+      let fill2 ← liftRaise fill2
+      pure (fappend start fill2)
 
-/-- `close_fragment(fragment, depth, old_open, new_open, parent)`:
+/-- `close_fragment(fragment, depth, old_open, new_open, parent, open_end, on_end_spine)`:
 
         if depth < old_open:
             first = fragment.first_child                      # assert first is not None
-            fragment = fragment.replace_child(0, first.copy(close_fragment(first.content, depth + 1, …, first)))
+            fragment = fragment.replace_child(0, first.copy(close_fragment(first.content, depth + 1, …, first,
+                                                   open_end, on_end_spine and fragment.child_count == 1)))
         if depth > new_open: …                                 # `closeLevel`
 
     The first argument counts `old_open - depth` (the recursion of the code is on `depth` going up
     to `old_open`), so `depth = oldOpen - n`.  A text / leaf node on the spine has empty content and
     `copy` gives the node itself (`Node.withKids`), as in `closeNodeStart`. -/
-def closeFragment (S : Schema) (oldOpen newOpen : Nat) : Nat → List Node → Option TypeId → FM (List Node)
-  | 0, fragment, parentTy =>
-    if newOpen < oldOpen then closeLevel S parentTy fragment else pure fragment
-  | _ + 1, [], _ => throw .raises
-  | n + 1, first :: rest, parentTy => do
-    let inner ← closeFragment S oldOpen newOpen n first.kids (some (S.tyOf first))
-    if newOpen < oldOpen - (n + 1) then closeLevel S parentTy (first.withKids inner :: rest)
+def closeFragment (S : Schema) (oldOpen newOpen openEnd : Nat) :
+    Nat → List Node → Option TypeId → Bool → FM (List Node)
+  | 0, fragment, parentTy, onEnd =>
+    if newOpen < oldOpen then closeLevel S parentTy (onEnd && decide (oldOpen < openEnd)) fragment
+    else pure fragment
+  | _ + 1, [], _, _ => throw .raises
+  | n + 1, first :: rest, parentTy, onEnd => do
+    let inner ← closeFragment S oldOpen newOpen openEnd n first.kids (some (S.tyOf first)) (onEnd && rest.isEmpty)
+    if newOpen < oldOpen - (n + 1) then
+      closeLevel S parentTy (onEnd && decide (oldOpen - (n + 1) < openEnd)) (first.withKids inner :: rest)
     else pure (first.withKids inner :: rest)
 
-/-- `close_fragment(slice.content, 0, slice.open_start, open_depth, None)` -/
+/-- `close_fragment(slice.content, 0, slice.open_start, open_depth, None, slice.open_end)` -/
 def closeSlice (S : Schema) (sl : Slice) (openDepth : Nat) : FM (List Node) :=
-  closeFragment S sl.openStart openDepth sl.openStart sl.content none
+  closeFragment S sl.openStart openDepth sl.openEnd sl.openStart sl.content none true
 
 /-! ### the spec flags `replace_range` reads -/
 
